@@ -66,6 +66,10 @@ def verdict(block, known_racy):
     """('known', var) | ('violation', var) | ('unclassified', fns) for one race report or crash stack."""
     v, fns = classify_report(block)
     prot = [p for p in (protected_of(f) for f in fns) if p]
+    if 'colList' in [v] + [variable_of(f) for f in fns] and re.search(r'\(\*column\)\.Apply\b', block) and re.search(r'\)\.Grow\b', block):
+        # growth against a commit's Apply: both sides hold the column lock in Locks.tla (write / read), so this pair is
+        # not the known finding (growth beside point readers, which take no column lock) and nothing excuses it
+        return 'violation', 'colListUnderColumnLock', fns
     if v is not None:
         if v in known_racy:
             return 'known', v, fns
